@@ -745,6 +745,9 @@ class CallMixin:
                 if o is not None:
                     o.fields['args'] = SV('tuple', list(args.pos))
                     return [('ok', s2, NONE_SV)]
+                if selfsv.k == 'ref' and selfsv.t and selfsv.t.startswith('inst:') and not args.kw and args.star is None:
+                    # self is a heap instance (constructor contract): BaseException.__init__ stores the positional arguments as .args
+                    return self.setattr_(s2, selfsv, 'args', SV('tuple', list(args.pos)))
             if name == '__str__':
                 return [('ok', st, SV('str', fn('exc_str', Tok, R, Z.S)(st.tok, self.box(st, selfsv))))]
             raise Unsupported('super().%s' % name)
